@@ -118,12 +118,26 @@ private:
     auto& self = *static_cast<type*>(p);
     self.callback_.destruct();
     if constexpr (is_stop_never_possible_v<stop_token_type_t<Receiver&>>) {
-      unifex::set_value(std::move(self.receiver_));
+      if constexpr (is_nothrow_receiver_of_v<Receiver>) {
+        unifex::set_value(std::move(self.receiver_));
+      } else {
+        UNIFEX_TRY { unifex::set_value(std::move(self.receiver_)); }
+        UNIFEX_CATCH(...) {
+          unifex::set_error(std::move(self.receiver_), std::current_exception());
+        }
+      }
     } else {
       if (get_stop_token(self.receiver_).stop_requested()) {
         unifex::set_done(std::move(self.receiver_));
       } else {
-        unifex::set_value(std::move(self.receiver_));
+        if constexpr (is_nothrow_receiver_of_v<Receiver>) {
+          unifex::set_value(std::move(self.receiver_));
+        } else {
+          UNIFEX_TRY { unifex::set_value(std::move(self.receiver_)); }
+          UNIFEX_CATCH(...) {
+            unifex::set_error(std::move(self.receiver_), std::current_exception());
+          }
+        }
       }
     }
   }
@@ -203,12 +217,26 @@ private:
     auto& self = *static_cast<type*>(p);
     self.callback_.destruct();
     if constexpr (is_stop_never_possible_v<stop_token_type_t<Receiver&>>) {
-      unifex::set_value(std::move(self.receiver_));
+      if constexpr (is_nothrow_receiver_of_v<Receiver>) {
+        unifex::set_value(std::move(self.receiver_));
+      } else {
+        UNIFEX_TRY { unifex::set_value(std::move(self.receiver_)); }
+        UNIFEX_CATCH(...) {
+          unifex::set_error(std::move(self.receiver_), std::current_exception());
+        }
+      }
     } else {
       if (get_stop_token(self.receiver_).stop_requested()) {
         unifex::set_done(std::move(self.receiver_));
       } else {
-        unifex::set_value(std::move(self.receiver_));
+        if constexpr (is_nothrow_receiver_of_v<Receiver>) {
+          unifex::set_value(std::move(self.receiver_));
+        } else {
+          UNIFEX_TRY { unifex::set_value(std::move(self.receiver_)); }
+          UNIFEX_CATCH(...) {
+            unifex::set_error(std::move(self.receiver_), std::current_exception());
+          }
+        }
       }
     }
   }
